@@ -11,6 +11,7 @@ import ButlerModel.Driver.C13
 import ButlerModel.Driver.C02
 import ButlerModel.Driver.C10
 import ButlerModel.Driver.C07
+import ButlerModel.Driver.C09
 /-! Line-protocol driver: one request per line on stdin, one reply per line on stdout.
 The first token selects the model; stateful models keep their state in `DState`. -/
 
@@ -22,6 +23,7 @@ structure DState where
   did : Driver.C13.St := {}
   reg : Registry.St := {}
   repo : Registry.Repo := {}
+  art : Artifacts.S := {}
 
 def step (st : DState) (line : String) : DState × String :=
   let toks := (line.splitOn " ").filter (· ≠ "")
@@ -39,6 +41,8 @@ def step (st : DState) (line : String) : DState × String :=
   | "page" :: rest => let (c, out) := Driver.C16.handle st.page rest; ({ st with page := c }, out)
   | "did" :: rest => let (c, out) := Driver.C13.handle st.did rest; ({ st with did := c }, out)
   | "reg" :: rest => let (c, out) := Driver.C02.handle st.reg rest; ({ st with reg := c }, out)
+  | "path" :: rest => (st, Driver.C09.handlePath rest)
+  | "art" :: rest => let (c, out) := Driver.C09.handle st.art rest; ({ st with art := c }, out)
   | "repo" :: rest => let (c, out) := Driver.C10.handle st.repo rest; ({ st with repo := c }, out)
   | _ => (st, "bad-op")
 
